@@ -8,6 +8,17 @@ From Pq Require Import Base.Bytes Thrift.Varint Thrift.Compact Proofs.CompactPro
 Import ListNotations.
 Open Scope N_scope.
 
+Section Ids.
+Variable fids : list Z.
+Hypothesis Hasc : asc 0 fids.
+Local Notation w_thrift := (CThrift.w_thrift fids).
+Local Notation t_thrift := (CThriftSpec.t_thrift fids).
+Local Notation w_top := (CThrift.w_top fids).
+Local Notation t_top := (CThriftSpec.t_top fids).
+Local Notation ser := (CThrift.ser fids).
+Local Notation to_bytes := (CThrift.to_bytes fids).
+Local Notation dom := (CThriftSpec.dom fids).
+
 (* ---- (i) the denoted tree of an object in dom is readable -------------------------------------- *)
 Definition good (j : nat) (t : tv) : Prop := rwf t = true /\ rdable t = true /\ (depth t <= S j)%nat.
 
@@ -44,7 +55,7 @@ Definition td_good (td : pv -> option tv) : Prop :=
 Lemma list_good td j l t : td_good td ->
   dom (S j) (PList l) = true -> t_list_with td l = Some t -> good (S j) t.
 Proof.
-  intros Htd Hdom E. cbn [dom] in Hdom. apply andb_true_iff in Hdom. destruct Hdom as [Hsm Hel].
+  intros Htd Hdom E. cbn [CThriftSpec.dom] in Hdom. apply andb_true_iff in Hdom. destruct Hdom as [Hsm Hel].
   unfold small in Hsm.
   destruct l as [|first r]; cbn [t_list_with] in E.
   - injection E as <-. repeat split; cbn; lia.
@@ -98,11 +109,11 @@ Proof.
   destruct v as [|b|z|f|l|l|l|a b c]; cbn [t_field] in E.
   - discriminate.
   - injection E as <-. repeat split; cbn; lia.
-  - cbn [dom] in Hdom. rewrite Hdom in E. injection E as <-.
+  - cbn [CThriftSpec.dom] in Hdom. rewrite Hdom in E. injection E as <-.
     destruct (int_nib i32 i32l i =? 5); repeat split; try (cbn [rwf]; rewrite <- in_i64_range64; exact Hdom); cbn; lia.
   - discriminate Hdom.
-  - injection E as <-. cbn [dom] in Hdom. repeat split; [exact Hdom|cbn; lia].
-  - injection E as <-. cbn [dom] in Hdom. repeat split; [exact Hdom|cbn; lia].
+  - injection E as <-. cbn [CThriftSpec.dom] in Hdom. repeat split; [exact Hdom|cbn; lia].
+  - injection E as <-. cbn [CThriftSpec.dom] in Hdom. repeat split; [exact Hdom|cbn; lia].
   - apply (list_good td j l t Htd Hdom E).
   - destruct (Htd (S j) _ t Hdom E) as (G & _). exact G.
 Qed.
@@ -141,9 +152,9 @@ Proof.
 Qed.
 
 Lemma dom_fields j i32 i32l fs i v : dom (S j) (PDict i32 i32l fs) = true -> lookup i fs = Some v -> v <> PNone ->
-  dom j v = true /\ existsb (Z.eqb i) ids13 = true.
+  dom j v = true /\ existsb (Z.eqb i) fids = true.
 Proof.
-  cbn [dom]. intros H El Hn. apply lookup_in in El.
+  cbn [CThriftSpec.dom]. intros H El Hn. apply lookup_in in El.
   pose proof (proj1 (forallb_forall _ fs) H (i, v) El) as Hx. cbn [snd fst] in Hx.
   destruct v; try congruence; apply andb_true_iff in Hx; tauto.
 Qed.
@@ -151,7 +162,7 @@ Qed.
 Definition t_dict (d : nat) : pv -> option tv :=
   fun v : pv => match v with PDict a b c => t_thrift d a b c | _ => None end.
 Lemma t_thrift_S d i32 i32l fs :
-  t_thrift (S d) i32 i32l fs = option_map TStruct (t_fields (t_field (t_dict d) i32 i32l) ids13 fs).
+  t_thrift (S d) i32 i32l fs = option_map TStruct (t_fields (t_field (t_dict d) i32 i32l) fids fs).
 Proof. reflexivity. Qed.
 
 Theorem t_good : forall d j i32 i32l fs t,
@@ -162,9 +173,9 @@ Proof.
   rewrite t_thrift_S in E. set (td := t_dict d) in E.
   assert (Htd : td_good td).
   { intros j' x t' Hd' Ex. destruct x as [| | | | | | |a b c]; try discriminate Ex. apply (IH j' a b c t' Hd' Ex). }
-  destruct (t_fields (t_field td i32 i32l) ids13 fs) as [l|] eqn:El; [|discriminate]. injection E as <-.
-  destruct (fields_good (t_field td i32 i32l) (S j) fs) with (ids := ids13) (prev := 0%Z) (l := l) as (R1 & R2 & R3);
-    [|lia|exact ids13_asc|exact El|].
+  destruct (t_fields (t_field td i32 i32l) fids fs) as [l|] eqn:El; [|discriminate]. injection E as <-.
+  destruct (fields_good (t_field td i32 i32l) (S j) fs) with (ids := fids) (prev := 0%Z) (l := l) as (R1 & R2 & R3);
+    [|lia|exact Hasc|exact El|].
   - intros i v t Hl Hn Et. destruct (dom_fields j i32 i32l fs i v Hdom Hl Hn) as [Hdv _].
     apply (field_good td i32 i32l i j v t Htd Hdv Et).
   - split; [|reflexivity]. unfold good. rewrite rwf_struct, rdable_struct, depth_struct. repeat split; try assumption. lia.
@@ -242,12 +253,12 @@ Proof.
   destruct v as [|b|z|f|l|l|l|a b c]; cbn [t_field] in E.
   - congruence.
   - injection E as <-. cbn [pv_of is_none py_eq]. apply Bool.eqb_reflx.
-  - cbn [dom] in Hdom. rewrite Hdom in E. injection E as <-.
+  - cbn [CThriftSpec.dom] in Hdom. rewrite Hdom in E. injection E as <-.
     destruct (int_nib i32 i32l k =? 5); cbn [pv_of is_none py_eq]; apply Z.eqb_refl.
   - discriminate Hdom.
   - injection E as <-. cbn [pv_of is_none py_eq]. apply bytes_eqb_refl.
   - injection E as <-. cbn [pv_of is_none]. apply bytes_eqb_refl.
-  - cbn [dom] in Hdom. apply andb_true_iff in Hdom. destruct Hdom as [_ Hel].
+  - cbn [CThriftSpec.dom] in Hdom. apply andb_true_iff in Hdom. destruct Hdom as [_ Hel].
     destruct l as [|first r]; cbn [t_list_with] in E.
     + injection E as <-. reflexivity.
     + destruct first as [|b0|z0|f0|b0|s0|l0|a0 b0 c0]; try discriminate Hel.
@@ -306,24 +317,24 @@ Proof.
   rewrite t_thrift_S in E. set (td := t_dict d) in E.
   assert (Hdeq : deq_ok td (dict_eq de) de).
   { intros j' a b c t' Hj' Hd' Ex. apply (IH de j' a b c t' Hj' Hd' Ex). }
-  destruct (t_fields (t_field td i32 i32l) ids13 fs) as [l|] eqn:El; [|discriminate]. injection E as <-.
+  destruct (t_fields (t_field td i32 i32l) fids fs) as [l|] eqn:El; [|discriminate]. injection E as <-.
   rewrite pv_of_struct. eexists. eexists. eexists. split; [reflexivity|].
   cbn [dict_eq]. apply forallb_forall. intros k _.
-  rewrite (lookup_fields (t_field td i32 i32l) fs ids13 0%Z l ltac:(lia) ids13_asc El k).
+  rewrite (lookup_fields (t_field td i32 i32l) fs fids 0%Z l ltac:(lia) Hasc El k).
   destruct (lookup k fs) as [v|] eqn:Ek.
-  - destruct (existsb (Z.eqb k) ids13) eqn:Ein.
+  - destruct (existsb (Z.eqb k) fids) eqn:Ein.
     + assert (Hv : v <> PNone -> val_eq (dict_eq de) (Some v)
           match v with PNone => None | _ => option_map pv_of (t_field td i32 i32l k v) end = true).
       { intros Hn. destruct (dom_fields j i32 i32l fs k v Hdom Ek Hn) as [Hdv _].
         destruct (t_field td i32 i32l k v) as [t|] eqn:Et.
         - replace (match v with PNone => None | _ => option_map pv_of (Some t) end) with (Some (pv_of t)) by (destruct v; try reflexivity; congruence).
           apply (val_eq_ok td (dict_eq de) de i32 i32l k j v t Hdeq ltac:(lia) Hdv Hn Et).
-        - exfalso. exact (t_fields_some (t_field td i32 i32l) fs k v Ek Hn Et ids13 l Ein El). }
+        - exfalso. exact (t_fields_some (t_field td i32 i32l) fs k v Ek Hn Et fids l Ein El). }
       destruct v; try (apply Hv; discriminate). reflexivity.
     + (* a key outside 1..13 carrying a value is excluded by dom *)
       destruct v; try (destruct (dom_fields j i32 i32l fs k _ Hdom Ek ltac:(discriminate)) as [_ Hin]; congruence).
       reflexivity.
-  - destruct (existsb (Z.eqb k) ids13); reflexivity.
+  - destruct (existsb (Z.eqb k) fids); reflexivity.
 Qed.
 
 (* ---- the buffer: a serialisation that fits is written completely -------------------------------- *)
@@ -349,8 +360,8 @@ Qed.
 
 Theorem to_bytes_fits cap v bs : ser v = Some bs -> len bs <= cap -> to_bytes cap v = OBytes bs.
 Proof.
-  unfold ser, to_bytes. intros E Hc. destruct (w_top v) as [ops|]; [|discriminate]. cbn [option_map] in E. injection E as <-.
+  unfold CThrift.ser, CThrift.to_bytes. intros E Hc. destruct (w_top v) as [ops|]; [|discriminate]. cbn [option_map] in E. injection E as <-.
   destruct (run_fits cap ops (mkSt 0 []) eq_refl) as (s' & Er & _ & H2); [cbn [loc]; lia|].
   rewrite Er. f_equal. rewrite H2, app_nil_r, rev_append_rev, app_nil_r, rev_involutive. reflexivity.
 Qed.
-
+End Ids.
